@@ -14,6 +14,8 @@ claimed = {
          "§5 C09"),
  "C03": ("BX", "Explicit-state BFS (depth 6 quick / 9 thorough) over operation histories of the real breaker for 61 (quick) / 116 (thorough) configurations: count, ratio, period-count and period-rate failure thresholds x success thresholds/ratios, fixed delay and delay function, handle conditions; operations: records, permit requests, executions, manual transitions, clock advances to 1 tick, slice-1, slice, period, delay-1 and exactly the delay. Every transition is compared with a reference model written from the documentation (state, admission, metrics, remaining delay, events with old-state metrics); states merged only on exact dumps.",
          "§5 C03"),
+ "C05": ("BX", "Explicit-state BFS (depth 5 quick / 7 thorough) over histories of TryAcquire/Reserve/TryReserve/blocking Acquire/executions with permit counts {1,2,3,5}, max waits {0, unit-1, unit, 3 units, none} and clock advances (1 tick, boundary-1, boundary, boundary+1, 2.5 and 7 units of idle time) on 10 real smooth and bursty limiters, every answer compared with a slot/period reference model (earliest instant respecting the rate and request order; refusals change nothing); plus SX exploration (deviation bound 2/3) of 2-3 concurrent callers whose answers must equal those of some sequential order.",
+         "§5 C05"),
 }
 na = {}
 props = [json.loads(l) for l in open('/verif/properties.jsonl')]
